@@ -77,6 +77,15 @@ TStep ==
                     /\ used' = used \cup {"Dev_UnlockedRead"}
               /\ delivered' = delivered + e.n
               /\ Keep(<<put, taken, written, pumpsOpen, pumpsStopped, inAppend, curPos, curN, lastPos, procExited, drained>>)
+         \* the order in which the real "fully read?" reads its flags (instrumented reader, see the driver):
+         \* read number k must be Capture!CodeOrder[k]; a false flag ends the reads; the answer is "yes" only
+         \* after all three were read
+         [] e.ev = "fr.read" ->
+              /\ put < 3 /\ e.flag = <<"closed", "thread", "empty">>[put + 1] /\ put' = put + 1
+              /\ Keep(<<taken, written, delivered, pumpsOpen, pumpsStopped, inAppend, curPos, curN, lastPos, procExited, drained>>)
+         [] e.ev = "fr.answer" ->
+              /\ (e.flag = "yes" => put = 3)
+              /\ Keep(<<put, taken, written, delivered, pumpsOpen, pumpsStopped, inAppend, curPos, curN, lastPos, procExited, drained>>)
          [] OTHER -> Keep(<<put, taken, written, delivered, pumpsOpen, pumpsStopped, inAppend, curPos, curN, lastPos, procExited, drained>>)
   /\ (Steps[l].ev # "main.read" => used' = used)
   /\ l' = l + 1 /\ tid' = tid
